@@ -22,6 +22,10 @@ CLAIMED = {
   text="Decides for the 18 AppModule Begin/EndBlock methods and every module function reachable from them without crossing a recovering frame (defer-recover, whoops.Try): each method returns only the nil error (one exemption with a checked side obligation); every explicit panic, panicking SDK conversion or division (Int.Int64/Uint64, MustFloat64, Quo*/Mod by a possibly-zero divisor, Must*/whoops.Assert), single-result type assertion, integer division by a non-constant, parallel-slice index and decremented slice index is dominated by the matching guard, auto-accepted (codec round trip, constant arguments) or individually triaged with a reason; unknown sites fail; the skyway recover frames are installed first. NOT decided: nil dereferences, general index-out-of-range, panics inside SDK callees, states unreachable through transactions.",
   technique="call-graph reachability with recover-frame cut + may-panic site enumeration + dominator guard matching + frozen triage table",
   ref="C09"),
+ "C01": dict(
+  text="Decides over every skyway function that (transitively, VTA call graph) mutates pool / batch / id-counter / escrow state: a function that can fail after a mutation is an atomic wrapper (cache context committed only on success, every mutating callee on the cached context) or all caller chains propagate the error to a transaction boundary / atomic wrapper, never log-and-continue; every bank call moving the escrow has a registered shape with paired amounts (lock = amount + the recorded tax value; refund = stored amount + stored tax to the checked owner after removal; burn = batch sum, followed by batch deletion; mint = claim amount, only under the attestation handler whose only caller chain is processAttestation <- TryAttestation; governance one-off authority-guarded); pool/batch moves are exclusive and ordered; a failed local send of a minted deposit still reaches the community pool (path-sensitive over flag variables). NOT decided: the numeric identity escrow == sum(amount+tax) over arbitrary histories (follows informally from the pairing rules), id uniqueness arithmetic, atomicity inside the SDK bank keeper.",
+  technique="store/bank writer sets + transitive mutator closure over VTA call graph + error-fate analysis + atomic-wrapper typestate + access-path amount pairing + path-sensitive must-pass-through",
+  ref="C01"),
  "C05": dict(
   text="Decides by access-path data-flow over the sibling pair keccak256 / VerifyAgainstTX of every action type: each message-relative path (action fields, fees and fee payer, message id, elected estimate, deadline, relayer) that influences the call data compared with the remote transaction also influences the Keccak256 input validators sign, plus the deployment id where the contract scheme has it; variable-length byte fields are not cut to a fixed width before signing; the batch checkpoint hash is influenced by token, receivers, amounts, nonce, timeout, relayer, gas estimate and turnstone id and every other batch field is classified; a new queued message's id comes only from IncrementNextID with one constant counter name (persisting last+1) and replacement requires the message to exist. NOT decided: injectivity of ABI packing and keccak (trusted), value-level equality of two encoders' arithmetic.",
   technique="interprocedural access-path influence (backward data-flow on SSA) + sibling cross-check + writer/guard checks",
